@@ -75,7 +75,8 @@ CLAIMS = {
         'macro, any letter case) is a keyword; macro names differ from instruction names; operand counts equal the lengths of operand sets '
         'and of every listed combination; numeric bytecode ranges not inverted; memory zones inside the address space.',
    note='Also under contract: the comparison block of RequiredLanguageLine (#require is rejected exactly when the ISA version does not '
-        'satisfy the stated comparison in version order). packaging.version ordering is trusted (abstract rank); register validation and '
+        'satisfy the stated comparison in version order), the register-name loop of AssemblerModel.__init__ (no register is a keyword) and '
+        'OperandSetsModel.__init__ (every operand set an instruction refers to is declared). packaging.version ordering is trusted (abstract rank); '
         '"well-formed definitions are never rejected" (no other exit reachable) are not under contract; Instruction / InstructionMacro construction assumed.'),
  'C08': dict(tech='contract-based deductive verification (pyvc + z3): ConditionStack contracts, inert-directive and include gating contracts',
    text='Contracts on the real ConditionStack (process_condition, _push, currently_active, is_muted) against the statement: a branch is '
